@@ -138,6 +138,34 @@ theorem wire_bijection (run : Nat) (h : wireMapExists run) : WireBij (wirePositi
   · intro b c b' c' w hb hc hb' hc' x y; rw [e] at x y; exact B.inj b c b' c' w hb hc hb' hc' x y
   · intro w hw; obtain ⟨b, c, hb, hc, x⟩ := B.surj w hw; exact ⟨b, c, hb, hc, by rw [e]; exact x⟩
 
+/-- `(board, channel) ↦ wire` as a function between finite types (0 when the lookup fails,
+which it does not for a run with a map). -/
+def wireFin (run : Nat) (x : Fin 8 × Fin 32) : Fin 256 :=
+  match wirePosition run x.1.val x.2.val with
+  | .ok w => if h : w < 256 then ⟨w, h⟩ else ⟨0, by omega⟩
+  | _ => ⟨0, by omega⟩
+
+/-- **C08 wire_bijection**, as a bijection `Fin 8 × Fin 32 → Fin 256`. -/
+theorem wireFin_bijective (run : Nat) (h : wireMapExists run) :
+    Function.Injective (wireFin run) ∧ Function.Surjective (wireFin run) := by
+  have B := wire_bijection run h
+  have val : ∀ x : Fin 8 × Fin 32, wirePosition run x.1.val x.2.val = .ok (wireFin run x).val := by
+    intro x
+    obtain ⟨w, hw, e⟩ := B.total x.1.val x.2.val x.1.isLt x.2.isLt
+    simp only [wireFin, e, hw, dite_true]
+  constructor
+  · intro x y e
+    obtain ⟨e1, e2⟩ := B.inj x.1.val x.2.val y.1.val y.2.val (wireFin run x).val x.1.isLt x.2.isLt
+      y.1.isLt y.2.isLt (val x) (by rw [e]; exact val y)
+    exact Prod.ext (Fin.ext e1) (Fin.ext e2)
+  · intro w
+    obtain ⟨b, c, hb, hc, e⟩ := B.surj w.val w.isLt
+    refine ⟨(⟨b, hb⟩, ⟨c, hc⟩), Fin.ext ?_⟩
+    have := val (⟨b, hb⟩, ⟨c, hc⟩)
+    simp only at this
+    rw [e, ok_eq_ok] at this
+    exact this.symm
+
 /-- The same for `u32` run numbers. -/
 theorem wire_bijection_u32 (run : UInt32) (h : wireMapExists run.toNat) :
     WireBij (wirePosition run.toNat) := wire_bijection run.toNat h
